@@ -74,6 +74,10 @@ class Engine:
             seq = []
             for k in range(rng.choice([2, 2, 3])):
                 sub = self.gen_plan(rng, "control", tier, prop)
+                if rng.random() < 0.3:
+                    # the same model requested again and again from different PATHs, into the same output folder
+                    sub.update(target="sympy", models=[rng.choice(["A", "B"])], outdir="out", relative=False, opts=[],
+                               paths=[rng.choice(["lib", "lib/A.mo", "lib/B.mo", "lib/sub", "@lib"])])
                 if rng.random() < 0.5:
                     sub["target"] = "casadi"
                     sub["paths"] = [rng.choice(["lib", "lib", "lib/sub", "lib/A.mo"])]
@@ -426,8 +430,8 @@ class Engine:
         config = plan.get("config", "control")
         if plan.get("seq"):
             steps = 0
+            sb = self.make_sandbox()  # ONE project folder: what an invocation leaves behind (output files) is still there
             for pos, sub in enumerate(plan["seq"]):
-                sb = self.make_sandbox()
                 st, fs = self.invoke(sub, sb, None)
                 steps += len(fs.trace)
                 log.add(0, 0, "invocation", "%d: %s -> %r" % (pos, self.show(sub), st))
